@@ -111,4 +111,35 @@ theorem lookup_setNameKVs_ne {k pname n : String} (hk : k ≠ "name") (kvs : KVs
   · rfl
 
 
+/-! ### "the canary does not occur" survives `strings.Cut` -/
+
+theorem cutEqL_fst_prefix : ∀ l : List Char, (cutEqL l).1 <+: l
+  | [] => by simp [cutEqL]
+  | c :: cs => by
+    simp only [cutEqL]
+    split
+    · exact List.nil_prefix
+    · exact (List.cons_prefix_cons).2 ⟨rfl, cutEqL_fst_prefix cs⟩
+
+theorem cutEqL_snd_suffix : ∀ l : List Char, (cutEqL l).2 <:+ l
+  | [] => by simp [cutEqL]
+  | c :: cs => by
+    simp only [cutEqL]
+    split
+    · exact List.suffix_cons _ _
+    · exact (cutEqL_snd_suffix cs).trans (List.suffix_cons _ _)
+
+theorem cutClosed_not_occurs (c : List Char) : CutClosed (fun s => ¬ occurs c s) := by
+  intro s hs
+  simp only [occurs, occursB_iff_infix] at hs ⊢
+  constructor
+  · intro h
+    apply hs
+    simp only [cutEq, String.toList_ofList] at h
+    exact h.trans (cutEqL_fst_prefix _).isInfix
+  · intro h
+    apply hs
+    simp only [cutEq, String.toList_ofList] at h
+    exact h.trans (cutEqL_snd_suffix _).isInfix
+
 end CV.Secrets
